@@ -1,5 +1,5 @@
 """C20 - Concurrent use is safe (NonrevCache.tla, CPRNG.tla, SafePrimeWorkers.tla)."""
-import os, json, re, subprocess, vplib
+import os, json, re, subprocess, vplib, cprngstage
 
 def run(chk):
     T = chk.tier
@@ -40,19 +40,7 @@ def run(chk):
     res = vplib.vh("cc", ["gates", "--in", cp, "--tier", T, "--seed", str(chk.seed + 1000), "--n", str(n)], timeout=3000)
     chk.add_replay(res, "cache_schedules")
     # (ii) CPRNG reservations, recorded under the race detector
-    trace = os.path.join(d, "cprng.ndjson")
-    res = vplib.vh("cc", ["cprng", "--tier", T, "--seed", str(chk.seed), trace], timeout=1200, race=True, env={"GORACE": "halt_on_error=0 exitcode=0 log_path=%s" % os.path.join(d, "race-cprng")})
-    chk.add_replay(res, "cprng_reads")
-    tv = vplib.tlc("CPRNGTrace", "CPRNG.trace.cfg", workers=1, timeout=1200, files={"trace.ndjson": open(trace).read()}, allow_fail=True)
-    nreads = sum(1 for _ in open(trace))
-    chk.add_tlc(tv, "CPRNGTrace", "CPRNG.trace.cfg", "%d recorded reservations" % nreads)
-    if "TRACE REJECTED" in tv.out:
-        m = re.findall(r"TRACE REJECTED after\", (\d+)", tv.out)
-        chk.add_violation({"kind": "keystream-reservations-not-a-tiling", "what": "the recorded CPRNG reservations are not a gap-free, overlap-free tiling (TLC stopped after %s of %d)" % (m[:1], nreads)})
-    elif tv.error:
-        raise vplib.Machinery("CPRNG trace validation crashed: %s" % tv.error)
-    else:
-        chk.traces += 1
+    cprngstage.run(chk, d, race=True)
     # (ii-b) the repository's OWN tests as a trace source: their cache operations, recorded through the hooks, must be
     # explainable by NonrevCache.tla (TLC searches for an interleaving of the per-goroutine sequences)
     rt = os.path.join(d, "repotrace.ndjson")
